@@ -30,6 +30,8 @@ type ent struct {
 	Cb      func(via string, k int) interface{}                                // typed callback number k
 	StandIn func(via string) interface{}                                       // typed stand-in for As(..)
 	Tmpl    func(tmpl string) interface{}                                      // template instance for Struct / NewMethodMocker (nil: type not visible)
+	Orig    func() interface{}                                                 // &placeholder for Origin(..) (nil: not generated)
+	CbO     func(k int) interface{}                                            // callback that calls the placeholder and checks its result
 }
 
 // wireBase is what '@' abbreviates in the operation stream.
@@ -133,6 +135,7 @@ type handle struct {
 	via string
 	um  *mocker.UnexportedMethodMocker // directly constructed (outside the builder caches)
 	mm  *mocker.MethodMocker
+	org bool // Origin(&placeholder) is set on the mocker
 }
 
 // directTok handles `UM~pkg~sn~m~eid` and `MM~pkg~T~ptr~m~eid[~tmpl]`: old == nil constructs a fresh mocker object with
@@ -208,6 +211,8 @@ func lookupTok(b *mocker.Builder, f []string) (hd handle, res string) {
 		}
 	case len(f) == 5 && (f[0] == "ES" || f[0] == "EC"):
 		pkg, raw, m, eidS = f[1], f[2], f[3], f[4]
+	case len(f) == 4 && f[0] == "EF":
+		pkg, raw, eidS = f[1], f[2], f[3]
 	default:
 		return hd, "bad-op"
 	}
@@ -232,6 +237,9 @@ func lookupTok(b *mocker.Builder, f []string) (hd handle, res string) {
 
 func applyCb(hd handle, k int) string {
 	cb := hd.e.Cb(hd.via, k)
+	if hd.org {
+		cb = hd.e.CbO(k)
+	}
 	return try(func() {
 		switch h := hd.h.(type) {
 		case mocker.ExportedMocker:
@@ -273,6 +281,12 @@ func runHist(steps []string) string {
 		switch {
 		case len(f) == 1 && f[0] == "R":
 			res = append(res, try(func() { b.Reset() }))
+			for hn, hd := range handles {
+				if hd.um == nil && hd.mm == nil {
+					hd.org = false
+					handles[hn] = hd
+				}
+			}
 		case f[0] == "L" && len(f) > 2:
 			hd, r := lookupTok(b, f[2:])
 			if r == "bad-op" || strings.HasPrefix(r, "err:inconsistent") || strings.HasPrefix(r, "err:curpkg") {
@@ -307,6 +321,25 @@ func runHist(steps []string) string {
 		case f[0] == "C" && len(f) == 2:
 			if hd, ok := get(); ok {
 				res = append(res, try(func() { hd.h.(mocker.Mocker).Cancel() }))
+				hd.org = false // Cancel forgets the origin (mocker.go:160)
+				handles[f[1]] = hd
+			}
+		case f[0] == "O" && len(f) == 2:
+			if hd, ok := get(); ok {
+				if hd.e.Orig == nil || (hd.via != "SM" && hd.via != "SX") {
+					res = append(res, "err:noorigin")
+					break
+				}
+				res = append(res, try(func() {
+					switch h := hd.h.(type) {
+					case mocker.ExportedMocker:
+						h.Origin(hd.e.Orig())
+					case mocker.UnExportedMocker:
+						h.Origin(hd.e.Orig())
+					}
+				}))
+				hd.org = true
+				handles[f[1]] = hd
 			}
 		case (f[0] == "T" && len(f) == 3) || (f[0] == "S" && len(f) == 4):
 			if hd, ok := get(); ok {
